@@ -152,6 +152,22 @@ fn corrupt(
             ),
             _ => whole(garbage(rng), "garbage token"),
         },
+        TokKind::LatchInit { own, max } => match rng.below(4) {
+            0 => whole(garbage(rng), "garbage token"),
+            1 => whole(digits(21 + rng.below(20), rng), "overflowing number"),
+            _ if *max >= 3 => {
+                // a literal of the file that is neither 0, 1 nor the latch itself
+                let mut v = 2 + rng.below((*max - 1).min(1 << 30) as usize) as u128;
+                if v == *own {
+                    v = if v + 1 <= *max { v + 1 } else { v - 1 };
+                }
+                if v < 2 || v == *own {
+                    return None;
+                }
+                whole(v.to_string().into_bytes(), "inadmissible latch reset value")
+            }
+            _ => whole((max + 2).to_string().into_bytes(), "out-of-range literal"),
+        },
         TokKind::SymIdx { limit } => match rng.below(3) {
             0 => whole(garbage(rng), "garbage token"),
             1 => whole((limit + 1).to_string().into_bytes(), "out-of-range index"),
